@@ -38,7 +38,9 @@ def render(chain, explicit=None, extra=None):
         # %nn markers last: a digit after %nn would be read as part of it
         rings = sorted(it.get('rings', []), key=lambda r: r[0] >= 10)
         for rid, ro, opening in rings:
-            s += (sym(ro) if opening else '') + rmark(rid)
+            # a closing marker may repeat the symbol of its opening marker ('=1 … =1', as in SMILES): written for a
+            # third of the closings, chosen from the AST alone so that no random stream shifts (seeded change C04-14)
+            s += (sym(ro) if opening else (SYM[ro] if (rid + i) % 3 == 0 else '')) + rmark(rid)
         if extra is not None:
             s += extra(it)
         if (it.get('mult', 1) > 1 or it.get('show1')) and not it['branches']:
